@@ -40,7 +40,7 @@ ASSUMPTIONS = [
     "'a broken server is never asked again' is scoped to one candidate name; the back-off sleep may overshoot the lifetime by at most 2 s",
     "dns.resolver.time / dns.asyncresolver.time are a virtual clock; responses are rendered to wire and parsed back before they are returned",
 ]
-REQUIRED = ["mon.do53_nameserver_twins", "mon.resolve_name", "mon.sync_vs_reference", "mon.async_vs_sync", "mon.log_invariants", "mon.cache_contents", "mon.exhaustive_scripts"]
+REQUIRED = ["mon.resolve_name_with_search_list", "mon.do53_nameserver_twins", "mon.resolve_name", "mon.sync_vs_reference", "mon.async_vs_sync", "mon.log_invariants", "mon.cache_contents", "mon.exhaustive_scripts"]
 BUDGET = {"quick": 45.0, "thorough": 480.0}
 
 KINDS = ["answer", "nodata", "nxdomain", "servfail", "refused", "timeout", "malformed", "truncated", "yxdomain", "oserror", "eoferror", "notimp", "chain-too-long", "answer-for-nxdomain", "cname1", "cname3", "cname-nodata", "cname-nxdomain"]
@@ -507,8 +507,17 @@ def check_resolve_name(ctx, rng, is_async):
     ctx.count("evaluations")
     ctx.count("mon.resolve_name")
     cfg = gen_cfg(rng)
-    cfg.update(cache=None, preseed={}, search=False, absolute=True, raise_on_no_answer=False, rdclass="IN")
-    cfg["qname"] = tuple(l for l in cfg["qname"] if l != b"") + (b"",)
+    with_search = rng.random() < 0.5 and len(cfg["qname"]) < 10
+    if with_search:
+        # a relative name and a search list: the AAAA lookup settles on one candidate, and the A lookup asks for THAT name
+        cfg.update(cache=None, preseed={}, search=True, absolute=False, raise_on_no_answer=False, rdclass="IN")
+        cfg["qname"] = tuple(l for l in cfg["qname"] if l != b"")
+        if not cfg["search_list"]:
+            cfg["search_list"] = [(b"corp", b"test", b""), (b"lab", b"test", b"")]
+        ctx.count("mon.resolve_name_with_search_list")
+    else:
+        cfg.update(cache=None, preseed={}, search=False, absolute=True, raise_on_no_answer=False, rdclass="IN")
+        cfg["qname"] = tuple(l for l in cfg["qname"] if l != b"") + (b"",)
     cfg["lifetime"] = rng.choice((2.0, 5.0, 10.0, 30.0))
     outcomes = [(rng.choice(("timeout", "timeout", "servfail", "answer", "answer", "nodata", "nxdomain", "truncated", "malformed", "refused")),
                  {"ttl": 300, "rtt": rng.choice((0.0, 0.01, 0.2)), "soa": True, "soa_ttl": 500, "minimum": 77, "cname_ttls": [60, 60, 60], "links": 1}) for _ in range(rng.randint(0, 14))]
@@ -523,6 +532,9 @@ def check_resolve_name(ctx, rng, is_async):
             want = ("LifetimeTimeout",)
         else:
             cfg4 = dict(cfg, rdtype="A", start=end6, lifetime=left)
+            if with_search and log6:
+                settled = dns.name.from_text(log6[-1][2])
+                cfg4.update(qname=tuple(settled.labels), absolute=True, search=False)
             log4, res4, _p, end4 = reference(cfg4, outcomes[len(log6):])
             want_log += log4
             if res4[0] in ("answer", "nodata"):
@@ -544,11 +556,11 @@ def check_resolve_name(ctx, rng, is_async):
                     backend = FakeBackend(clock)
                     loop = asyncio.new_event_loop()
                     try:
-                        ha = loop.run_until_complete(res.resolve_name(q, lifetime=cfg["lifetime"], tcp=cfg["tcp"], raise_on_no_answer=False, backend=backend))
+                        ha = loop.run_until_complete(res.resolve_name(q, lifetime=cfg["lifetime"], tcp=cfg["tcp"], raise_on_no_answer=False, backend=backend, search=True if with_search else None))
                     finally:
                         loop.close()
                 else:
-                    ha = res.resolve_name(q, lifetime=cfg["lifetime"], tcp=cfg["tcp"], raise_on_no_answer=False)
+                    ha = res.resolve_name(q, lifetime=cfg["lifetime"], tcp=cfg["tcp"], raise_on_no_answer=False, search=True if with_search else None)
                 got = ("host-answers", ha.get(dns.rdatatype.AAAA) is not None and ha[dns.rdatatype.AAAA].rrset is not None, ha.get(dns.rdatatype.A) is not None and ha[dns.rdatatype.A].rrset is not None)
             except dns.resolver.NXDOMAIN:
                 got = ("NXDOMAIN",)
